@@ -158,6 +158,11 @@ var extractCmd = &cobra.Command{
 			io.LogError(err)
 			return
 		}
+		if al == nil {
+			err = fmt.Errorf("no alignment in the input file")
+			io.LogError(err)
+			return
+		}
 
 		for _, subseq := range subcoords {
 			subalign = nil
